@@ -30,6 +30,12 @@ type hostPackage struct {
 	files []*ast.File
 	fset  *token.FileSet
 	cell  *value
+	// the source text (vfExec re-checks it in its own universe)
+	path  string
+	names []string
+	srcs  []string
+	deps  []*hostPackage
+	key   string
 }
 
 func (p *path) links() *astLink {
@@ -168,8 +174,19 @@ func (p *path) typeCheckSources(args []value) (*hostPackage, []string, []string)
 		Error: func(err error) { errs = append(errs, err.Error()) },
 	}
 	tpkg, _ := conf.Check(pkgPath, fset, files, info)
-	hp := &hostPackage{types: tpkg, info: info, files: files, fset: fset}
-	_ = byPath
+	hp := &hostPackage{types: tpkg, info: info, files: files, fset: fset, path: pkgPath}
+	for i := range names {
+		hp.names = append(hp.names, p.argName(names[i]))
+		hp.srcs = append(hp.srcs, srcs[i].(Str).Concrete())
+	}
+	var depPaths []string
+	for k := range byPath {
+		depPaths = append(depPaths, k)
+	}
+	sort.Strings(depPaths)
+	for _, k := range depPaths {
+		hp.deps = append(hp.deps, byPath[k])
+	}
 	return hp, fileNames, errs
 }
 
